@@ -33,6 +33,9 @@ pub enum Call {
         #[serde(default)]
         damage: u8,
     },
+    /// decode a hand-written declaration whose default expressions (FieldAdded, #[transient]) build values with
+    /// shared interior state, report that state as decoded, then change it THROUGH the decoded value
+    Held { which: u8, bump: u32 },
 }
 
 const POOL: usize = 200;
@@ -179,7 +182,8 @@ pub fn pool(seed: u64) -> Vec<Call> {
     });
     // decimals that are equal as numbers and differ as text
     let dec_text = prop::sample::select(vec!["1", "1.0", "1.00", "0", "0.000", "10", "1E+1", "-2.50", "-2.5"]).prop_map(|s| Call::Enc(TV { ty: Ty::BigDecimal, val: vmodel::Val::Str(s.to_string()), forms: vec![] }));
-    let strat = prop_oneof![4 => enc, 4 => dec, 2 => stream, 1 => graph, 6 => fam, 3 => zip, 1 => big, 2 => dangling, 2 => tz, 2 => dec_text];
+    let held = (0u8..4, 1u32..1000).prop_map(|(which, bump)| Call::Held { which, bump });
+    let strat = prop_oneof![4 => enc, 4 => dec, 2 => stream, 1 => graph, 6 => fam, 3 => zip, 1 => big, 2 => dangling, 2 => tz, 2 => dec_text, 2 => held];
     let mut r = runner(tag_seed(derive_seed(seed, "C18-pool", 0, 0), 0));
     let mut calls: Vec<Call> = (0..POOL).map(|_| strat.new_tree(&mut r).expect("pool").current()).collect();
     // the hand-written groups completely: every version as reader of every version's bytes
@@ -230,6 +234,7 @@ fn topic(c: &Call) -> String {
         Call::Stream(_) => "string table".into(),
         Call::Graph(_) => "graphs".into(),
         Call::Zip { .. } => "compressed blocks".into(),
+        Call::Held { .. } => "defaults with interior state".into(),
     }
 }
 
@@ -307,6 +312,7 @@ pub fn execute(c: &Call) -> String {
                 Err(e) => format!("zip-err {}", vcat::errinfo(&e).kind),
             }
         }
+        Call::Held { which, bump } => own::held(*which, *bump),
         Call::Graph(g) => {
             let case = crate::props::graphs::GraphCase { g: g.clone(), tracked_header: g.labels.len() % 2 == 0, tagged: g.labels.len() % 3 == 0, sentinel: g.labels.len() % 4 == 1, fault_sel: 3, fault_kind: 0 };
             match crate::props::graphs::check_graph(&case, &mut Acc::new(), false) {
@@ -318,6 +324,133 @@ pub fn execute(c: &Call) -> String {
     match r {
         Ok(s) => s,
         Err(p) => format!("PANIC {p}"),
+    }
+}
+
+// ---- hand-written declarations whose default expressions build values with shared interior state: the documented
+// expansion evaluates the expression for every decoded record, so two decoded values never share anything
+#[cfg(not(feature = "no_keep"))]
+pub mod own {
+    use desert::{BinaryDeserializer, BinaryInput, BinaryOutput, BinarySerializer, DeserializationContext, SerializationContext};
+    use std::sync::atomic::{AtomicU32, Ordering};
+    use std::sync::{Arc, Mutex};
+
+    #[derive(Clone, Debug)]
+    pub struct Counter(pub Arc<AtomicU32>);
+    impl Counter {
+        pub fn new(n: u32) -> Counter {
+            Counter(Arc::new(AtomicU32::new(n)))
+        }
+        fn get(&self) -> u32 {
+            self.0.load(Ordering::SeqCst)
+        }
+    }
+    impl BinarySerializer for Counter {
+        fn serialize<O: BinaryOutput>(&self, ctx: &mut SerializationContext<O>) -> desert::Result<()> {
+            ctx.write_u32(self.get());
+            Ok(())
+        }
+    }
+    impl BinaryDeserializer for Counter {
+        fn deserialize(ctx: &mut DeserializationContext<'_>) -> desert::Result<Self> {
+            Ok(Counter::new(ctx.read_u32()?))
+        }
+    }
+    #[derive(Clone, Debug)]
+    pub struct Notes(pub Arc<Mutex<Vec<String>>>);
+    impl Notes {
+        pub fn new() -> Notes {
+            Notes(Arc::new(Mutex::new(Vec::new())))
+        }
+        fn get(&self) -> Vec<String> {
+            self.0.lock().unwrap().clone()
+        }
+    }
+    impl BinarySerializer for Notes {
+        fn serialize<O: BinaryOutput>(&self, ctx: &mut SerializationContext<O>) -> desert::Result<()> {
+            self.get().serialize(ctx)
+        }
+    }
+    impl BinaryDeserializer for Notes {
+        fn deserialize(ctx: &mut DeserializationContext<'_>) -> desert::Result<Self> {
+            Ok(Notes(Arc::new(Mutex::new(Vec::<String>::deserialize(ctx)?))))
+        }
+    }
+
+    #[derive(desert::BinaryCodec)]
+    #[evolution(FieldAdded("hits", Counter::new(0)), FieldAdded("opt", Some(Counter::new(5))), FieldAdded("log", Notes::new()))]
+    pub struct Keep {
+        pub a: u32,
+        pub hits: Counter,
+        pub opt: Option<Counter>,
+        #[transient(Notes::new())]
+        pub notes: Notes,
+        pub log: Notes,
+    }
+
+    #[derive(desert::BinaryCodec)]
+    pub enum KeepE {
+        A {
+            x: u8,
+            #[transient(Counter::new(9))]
+            c: Counter,
+        },
+        B(u8, #[transient(Notes::new())] Notes),
+    }
+
+    fn keep(bytes: &[u8], bump: u32) -> String {
+        match desert::deserialize::<Keep>(bytes) {
+            Ok(k) => {
+                let seen = format!("a={} hits={} opt={:?} notes={:?} log={:?}", k.a, k.hits.get(), k.opt.as_ref().map(|c| c.get()), k.notes.get(), k.log.get());
+                k.hits.0.fetch_add(bump, Ordering::SeqCst);
+                if let Some(c) = &k.opt {
+                    c.0.fetch_add(bump, Ordering::SeqCst);
+                }
+                k.notes.0.lock().unwrap().push(format!("seen {bump}"));
+                k.log.0.lock().unwrap().push(format!("logged {bump}"));
+                seen
+            }
+            Err(e) => format!("err {}", vcat::errinfo(&e).kind),
+        }
+    }
+
+    pub fn held(which: u8, bump: u32) -> String {
+        match which {
+            // written before any of the steps: a version-0 record with `a` only
+            0 => keep(&[0, 0, 0, 0, 7], bump),
+            // written by the current version (only the transient field comes from its default)
+            1 => {
+                let v = Keep { a: 3, hits: Counter::new(40), opt: Some(Counter::new(41)), notes: Notes::new(), log: Notes::new() };
+                match desert::serialize_to_byte_vec(&v) {
+                    Ok(b) => keep(&b, bump),
+                    Err(e) => format!("enc-err {}", vcat::errinfo(&e).kind),
+                }
+            }
+            2 => match desert::deserialize::<KeepE>(&[0, 0, 0, 1]) {
+                Ok(KeepE::A { x, c }) => {
+                    let seen = format!("A x={x} c={}", c.get());
+                    c.0.fetch_add(bump, Ordering::SeqCst);
+                    seen
+                }
+                Ok(_) => "other constructor".into(),
+                Err(e) => format!("err {}", vcat::errinfo(&e).kind),
+            },
+            _ => match desert::deserialize::<KeepE>(&[0, 1, 0, 2]) {
+                Ok(KeepE::B(x, n)) => {
+                    let seen = format!("B x={x} n={:?}", n.get());
+                    n.0.lock().unwrap().push(format!("seen {bump}"));
+                    seen
+                }
+                Ok(_) => "other constructor".into(),
+                Err(e) => format!("err {}", vcat::errinfo(&e).kind),
+            },
+        }
+    }
+}
+#[cfg(feature = "no_keep")]
+pub mod own {
+    pub fn held(_: u8, _: u32) -> String {
+        "left out (the derive macro of this tree does not compile the hand-written declarations)".into()
     }
 }
 
@@ -634,6 +767,7 @@ fn call_brief(c: &Call) -> String {
         Call::Stream(items) => format!("stream of {} values", items.len()),
         Call::Graph(g) => format!("graph of {} nodes", g.labels.len()),
         Call::Zip { len, period, level, damage } => format!("compressed block of {len} bytes (period {period}) at level {level}, damage {damage}"),
+        Call::Held { which, bump } => format!("decode of hand-written declaration #{which} whose defaults hold shared state, then +{bump} through the result"),
     }
 }
 
